@@ -433,6 +433,8 @@ def value_expr(path: Path, index: int, expr, depth: int = 6, keep_clock: bool = 
             # above); `a, b = x, y` was split element-wise by the interpreter
             if keep_clock and fn is not None and is_current_time(value, store.fn):
                 return node
+            if _mutated_between(path, pos, index, node.id):
+                return node  # a container filled in place: not its initial literal
             if trace is not None:
                 trace.append(pos)  # the value was read at this position
             return value_expr(path, pos, value, depth - 1, keep_clock, keep, trace=trace)
@@ -456,6 +458,25 @@ def value_expr(path: Path, index: int, expr, depth: int = 6, keep_clock: bool = 
             return node
 
     return Sub().visit(tree)
+
+
+_MUTATORS = frozenset((
+    'append', 'appendleft', 'pop', 'popleft', 'popitem', 'remove', 'clear', 'add', 'discard',
+    'insert', 'extend', 'extendleft', 'update', 'setdefault', 'sort', 'reverse', 'rotate'))
+
+
+def _mutated_between(path: Path, start: int, stop: int, name: str) -> bool:
+    for event in path.events[start + 1:min(stop, len(path.events))]:
+        node = event.node
+        if event.kind == 'call' and isinstance(node, ast.Call) and \
+                isinstance(node.func, ast.Attribute) and \
+                isinstance(node.func.value, ast.Name) and node.func.value.id == name and \
+                node.func.attr in _MUTATORS:
+            return True
+        if event.kind in ('store', 'del') and isinstance(node, ast.Subscript) and \
+                isinstance(node.value, ast.Name) and node.value.id == name:
+            return True
+    return False
 
 
 def _mentions_state(expr) -> bool:
